@@ -57,10 +57,14 @@ def chk_ref(case, note):
                else ("airborne_position_with_ref", pms.adsb.airborne_position_with_ref))
     r1 = refpoint(e, i, surface, case["f"], case["g"])
     r2 = refpoint(e, i, surface, case["f2"], case["g2"])
+    # a reference given as whole degrees (Python ints, e.g. an airport at 52, 4) is always inside the half-zone box: zones are >= 1.5 deg
+    r3 = (int(round(e["rlat"])), int(round(cg.wrap_lon(e["rlon"]))))
+    if r3[1] == 180:
+        r3 = (r3[0], -180)
     dstep = e["dlon_step"] * (1 if not surface else 1)  # surface: 19-bit bins of a 360/ni zone == 17-bit bins of 90/ni
     for name, fn in fns:
         outs = []
-        for (rl, ro) in (r1, r2):
+        for (rl, ro) in (r1, r2, r3):
             r = call(fn, msg, rl, ro)
             tag = "%s(%s, %r, %r)" % (name, msg, rl, ro)
             if r[0] != "ok":
@@ -73,7 +77,7 @@ def chk_ref(case, note):
             if not ok:
                 return "%s = %r, encoded position (%r, %r)" % (tag, r[1], e["rlat"], e["rlon"])
             outs.append((lat, lon))
-        if abs(outs[0][0] - outs[1][0]) > 1e-9 or cpr.lon_diff(outs[0][1], outs[1][1]) > 1e-9:
+        if any(abs(outs[0][0] - o[0]) > 1e-9 or cpr.lon_diff(outs[0][1], o[1]) > 1e-9 for o in outs[1:]):
             return "%s on %s: result moves with the reference inside the half-zone box: %r vs %r" % (name, msg, outs[0], outs[1])
     edge = max(abs(case["f"]), abs(case["g"]), abs(case["f2"]), abs(case["g2"])) >= 0.49
     cross = (r1[0] > 0) != (e["rlat"] > 0) or (r1[1] > 0) != (cg.wrap_lon(e["rlon"]) > 0)
